@@ -6,6 +6,8 @@ SQL-REJECT  exhaustive rejection: for every concrete expression class and every 
 SQL-OPS     every comparison operator of the language has a translation branch; unknown -> error
 SQL-VARID   the identity of the variable under an attribute chain reaches the choice of FROM
             element or a rejection; mapping by type alone conflates two variables of one class
+SQL-FETCH   the(...) on the database counts result rows as in-memory evaluation counts bindings: the fetch chain ends
+            in the strict one-row call and neither the chain nor the statement collapses or limits rows
 Semantic equivalence of the produced statement is not decided.
 """
 from __future__ import annotations
@@ -213,7 +215,7 @@ def sql_ops(prog: Program) -> RuleResult:
 
 
 def sql_varid(prog: Program) -> RuleResult:
-    r = RuleResult("SQL-VARID", "the leaf variable of an attribute chain decides the FROM element or is checked against the selected variable", floor=1)
+    r = RuleResult("SQL-VARID", "the leaf variable of an attribute chain decides the FROM element or is checked against the selected variable", floor=2)
     tr = prog.cls(TR)
     f = prog.method(tr.qual, "translate_attribute", inherited=False)
     seen, _ = self_closure(prog, tr.qual, f, property_reads=False)
@@ -237,6 +239,36 @@ def sql_varid(prog: Program) -> RuleResult:
         f"the attribute chain is resolved from the leaf's *type* only ({by_type}); the variable itself is never compared with the selected variable nor used to "
         f"pick a FROM element, so `a.x == b.z` with two variables of one class is translated as `T.x = T.z` on the selected row",
     )
+    # the attribute-equality join: one FROM element per mapped class means two variables of one mapped hierarchy cannot both be
+    # addressed - either each variable gets its own alias, or such a pair is rejected before the join is emitted
+    from ..cfg import CFG
+
+    j = next((m for m in tr.methods.values() if any(call_name(c) == "join" for c in calls_in(m.node)) and "equality" in m.name), None)
+    if j is None:
+        raise AnalysisError("SQL-VARID: the attribute-equality join method vanished")
+    cfg = CFG(j.node)
+    joins = [c for c in calls_in(j.node) if call_name(c) == "join"]
+    err_base = prog.cls("eql_interface.EQLTranslationError").qual
+    for jc in joins:
+        jn = cfg.node_of(jc)
+        per_variable_alias = any(call_name(c) == "aliased" for c in calls_in(j.node))
+        guarded = None
+        for t in cfg.nodes:
+            if t.kind != "test" or not isinstance(t.stmt, ast.If) or not cfg.dominates(t.id, jn):
+                continue
+            tests = [c for c in ast.walk(t.stmt.test) if isinstance(c, ast.Call) and call_name(c) == "issubclass"]
+            names = {n for c in tests for a in c.args for n in [src(a)]}
+            raises = [x for b in t.stmt.body for x in ast.walk(b) if isinstance(x, ast.Raise) and x.exc is not None]
+            rejects = any(prog.is_subclass(j.module.resolve(x.exc.func if isinstance(x.exc, ast.Call) else x.exc) or "", err_base) for x in raises)
+            both_directions = len(tests) >= 2 and len(names) >= 2 and isinstance(t.stmt.test, ast.BoolOp) and isinstance(t.stmt.test.op, ast.Or)
+            if rejects and both_directions and t.true_succ is not None and not cfg.dominates(t.true_succ, jn):
+                guarded = t
+        r.check(
+            per_variable_alias or guarded is not None, f"{j.short}#same-hierarchy-join", site(j, jc), src(jc)[:100],
+            "a pair of variables of one mapped hierarchy is rejected before the join is emitted" if guarded is not None else "each variable is joined through its own alias",
+            "the join target and its ON clause are chosen by mapped class alone: for two variables of the same class the table is joined to itself without an alias "
+            "(SQLAlchemy raises InvalidRequestError, not an EQLTranslationError), and for a class and its base the ON clause compares a row with itself (no rows)",
+        )
     return r
 
 
@@ -285,5 +317,85 @@ def sql_alias(prog: Program) -> RuleResult:
     return r
 
 
+# SQLAlchemy Result / Select API by its effect on the number of rows
+ROW_STRICT_ONE = {"one", "scalar_one"}  # raise for zero rows and for more than one row
+ROW_ALL = {"all", "fetchall"}
+ROW_COLLAPSING = {"unique", "distinct", "group_by"}  # several identical rows become one
+ROW_LIMITING = {"first", "limit", "fetchone", "fetchmany", "one_or_none", "scalar_one_or_none", "scalar", "offset", "slice", "partitions"}
+ROW_NEUTRAL = {"scalars", "where", "filter", "join", "outerjoin", "select_from", "options", "order_by", "execute", "select", "mappings"}
+
+
+def _chain(e: ast.expr) -> Tuple[List[str], ast.expr]:
+    """method names applied, innermost first, and the expression the chain starts from"""
+    names = []
+    while isinstance(e, ast.Call) and isinstance(e.func, ast.Attribute):
+        names.append(e.func.attr)
+        e = e.func.value
+    return names[::-1], e
+
+
+def sql_fetch(prog: Program) -> RuleResult:
+    r = RuleResult("SQL-FETCH", "the(...) fails on the database exactly when the statement returns no row or more than one", floor=3)
+    tr = prog.cls(TR)
+    f = prog.method(TR, "evaluate", inherited=False)
+    if f is None:
+        raise AnalysisError("SQL-FETCH: EQLTranslator.evaluate vanished")
+    local = {}
+    for x in walk_local(f.node):
+        if isinstance(x, ast.Assign) and len(x.targets) == 1 and isinstance(x.targets[0], ast.Name):
+            local.setdefault(x.targets[0].id, []).append(x.value)
+
+    def full_chain(e):
+        names, base = _chain(e)
+        seen = 0
+        while isinstance(base, ast.Name) and len(local.get(base.id, [])) == 1 and seen < 5:
+            n2, base = _chain(local[base.id][0])
+            names = n2 + names
+            seen += 1
+        return names, base
+
+    found = {}
+    for st in walk_local(f.node):
+        if not isinstance(st, ast.If):
+            continue
+        t = st.test
+        if isinstance(t, ast.Call) and call_name(t) == "isinstance" and len(t.args) == 2 and "quantifier" in src(t.args[0]):
+            q = src(t.args[1])
+            rets = [n for b in st.body for n in ast.walk(b) if isinstance(n, ast.Return) and n.value is not None]
+            for ret in rets:
+                found[q] = (ret, full_chain(ret.value))
+    if "The" not in found or "An" not in found:
+        raise AnalysisError(f"SQL-FETCH: evaluate() no longer dispatches on the quantifier classes The / An (found {sorted(found)})")
+    for q, (ret, (names, base)) in sorted(found.items()):
+        unknown = [n for n in names if n not in ROW_STRICT_ONE | ROW_ALL | ROW_COLLAPSING | ROW_LIMITING | ROW_NEUTRAL]
+        if unknown:
+            raise AnalysisError(f"SQL-FETCH: result method(s) {unknown} are not in the row-effect table of the checker")
+        lossy = [n for n in names if n in ROW_COLLAPSING | ROW_LIMITING]
+        if q == "The":
+            ok = bool(names) and names[-1] in ROW_STRICT_ONE and not lossy
+            why = (f"the rows are fetched with {'.'.join(names)}: " + (f"{lossy} collapses or limits the rows before they are counted" if lossy else "the last call does not insist on exactly one row")
+                   + "; in memory the(...) counts every binding, so a query whose entity is matched through two join partners raises MultipleSolutionFound there and returns one row here")
+        else:
+            ok = bool(names) and names[-1] in ROW_ALL and not [n for n in lossy if n in ROW_LIMITING]
+            why = f"an(...) fetches with {'.'.join(names)}: {lossy} drops rows"
+        r.check(ok, f"EQLTranslator.evaluate#{q}", site(f, ret), src(ret.value), f"rows fetched with {'.'.join(names)}", why)
+    # the statement itself: every re-assignment of the statement keeps the row multiset
+    n_stmt = 0
+    for g in tr.methods.values():
+        for x in walk_local(g.node):
+            if isinstance(x, ast.Assign) and any(is_self_attr(t) and t.attr == "sql_query" for t in x.targets):
+                names, base = _chain(x.value)
+                n_stmt += 1
+                unknown = [n for n in names if n not in ROW_STRICT_ONE | ROW_ALL | ROW_COLLAPSING | ROW_LIMITING | ROW_NEUTRAL]
+                if unknown:
+                    raise AnalysisError(f"SQL-FETCH: statement method(s) {unknown} are not in the row-effect table of the checker")
+                lossy = [n for n in names if n in ROW_COLLAPSING | ROW_LIMITING]
+                r.check(not lossy, f"{g.short}#statement", site(g, x), src(x.value)[:100], "statement built from select / where / join only",
+                        f"the statement is built with {lossy}, which collapses or limits rows: the(...) no longer sees how many bindings satisfy the query")
+    if n_stmt < 2:
+        raise AnalysisError("SQL-FETCH: fewer than two assignments to the statement found (select + where/join are the confirmed instances)")
+    return r
+
+
 def run(prog: Program, tier: str) -> List[RuleResult]:
-    return [sql_reject(prog), sql_ops(prog), sql_varid(prog), sql_alias(prog)]
+    return [sql_reject(prog), sql_ops(prog), sql_varid(prog), sql_alias(prog), sql_fetch(prog)]
